@@ -28,10 +28,11 @@ def base(quick):
 
 def config(quick):
     """One logger, every writer operation as a method: the complete graph is replayed."""
+    # writer 41 is a real *os.File (what an application's log file or pipe is)
     if quick:
-        ws_n, ws_e, lw = [1, 3], [4], [(3, 4)]
+        ws_n, ws_e, lw = [1, 3, 41], [4], [(3, 4)]
     else:
-        ws_n, ws_e, lw = [1, 3], [2, 4], [(1, 4), (4, 4), (3, 14)]
+        ws_n, ws_e, lw = [1, 3, 41], [2, 4, 41], [(1, 4), (4, 4), (3, 14), (41, 4)]
     wl = sorted(set(v for _, v in lw))
     sa = {
         "Writer": [(w, 0) for w in ws_n + [0]], "AddWriter": [(w, 0) for w in ws_n + [0]], "RemoveWriter": [(w, 0) for w in ws_n + [0]],
@@ -65,7 +66,7 @@ def config_reg(quick):
 
 def rand_config(c):
     r = dict(c)
-    ws = [1, 2, 3, 4, 5, 8, 0]
+    ws = [1, 2, 3, 4, 5, 8, 0, 41, 42]
     wl = [4, 14, 2, 8]
     r["wlevels"] = wl
     r["setter_args"] = {
@@ -84,7 +85,7 @@ def explain(ev, b):
     """Signature: which writer operation was the last call, on which kind of writer."""
     kinds = {0: "plain", 1: "lw", 2: "ls", 3: "pls"}
     k = ev["k"] if ev["op"] in ("Set", "With") else ev["op"]
-    wk = kinds[(ev["a"] - 1) % 4] if ev["a"] > 0 and ("Writer" in k) and not k.startswith("Reset") else "-"
+    wk = "file" if ev["a"] >= 41 and "Writer" in k else kinds[(ev["a"] - 1) % 4] if ev["a"] > 0 and ("Writer" in k) and not k.startswith("Reset") else "-"
     notes = []
     for li, o in enumerate(ev.get("obs", []), 1):
         for d in o.get("dest", []):
